@@ -609,6 +609,11 @@ class Exec:
             for x in self.fn['blocks'][b2]['instrs']:
                 if x['op'] == 'DebugRef' and x['var'] not in names and not x['isaddr'] and x['x']['k'] == 'reg' and x['x']['name'] in headdefs:
                     names[x['var']] = ('headexpr', x['x'], False)
+        if self.top:
+            # ghost(entered_Lk): how often loop k was reached from outside (a return clause can demand that the loop
+            # was reached: the function did not leave before it)
+            gke_ = ('ghost', 'entered_L%d' % L['ordinal'], z3.IntSort())
+            self.heap.set(gke_, self.heap.get(gke_) + 1)
         entry_heap = self.heap.copy()
         env_entry = self.spec_env(names, override=entry_vals)
         st = LoopState()
@@ -654,7 +659,7 @@ class Exec:
             mod = set(targets.keys())
             # allocation counters and local temporaries touched in the body are always havocked
             for key in self.loop_modset(h):
-                if key[0] == 'alloc' or (key[0] == 'cell') or (key[0] == 'ghost' and str(key[1]).startswith(('visited_', 'strpos_'))):
+                if key[0] == 'alloc' or (key[0] == 'cell') or (key[0] == 'ghost' and str(key[1]).startswith(('visited_', 'strpos_', 'ncalls_', 'fncalls_', 'entered_L'))):
                     mod.add(key)
             for key, locs in targets.items():
                 if all(l is not None for l in locs) and (key[0] in ('f', 'el', 'cell', 'mdom', 'mval', 'msize') or (key[0] == 'ghost' and len(key) > 3)):
